@@ -420,6 +420,17 @@ impl<R: Rng + Send> Multiplexor<R> {
     }
 }
 
+#[cfg(penguin_rs_verif)]
+impl<R> Multiplexor<R> {
+    /// Verification hook (compiled only with `--cfg penguin_rs_verif`): a probe that reports the
+    /// number of entries in the flow table. It holds its own reference to the table, so it can
+    /// still be asked after the `Multiplexor` has been dropped.
+    pub fn verif_flow_count_probe(&self) -> impl Fn() -> usize + Send + Sync + 'static {
+        let flows = Arc::clone(&self.flows);
+        move || flows.read().len()
+    }
+}
+
 impl<R> Drop for Multiplexor<R> {
     fn drop(&mut self) {
         if self.dropped_flows_tx.send(0).is_err() {
